@@ -118,6 +118,12 @@ def row_for(kind, mod, n=0):
         return (mod, "P.sp", "{}", t, None)
     if kind == "class_now_nontype":
         return (mod, "ok1", '{"a": %s}' % cls_json(mod, "NotAType"), t, None)
+    if kind == "class_now_nontype_ret":      # another row naming the same non-type binding
+        return (mod, "ok2", '{"a": %s, "b": %s}' % (t, t), cls_json(mod, "NotAType"), None)
+    if kind == "class_module_removed_ret":   # another row naming the same removed module
+        return (mod, "ok2", '{"a": %s, "b": %s}' % (t, t), cls_json("mt_gone_module_xyz.sub", "C"), None)
+    if kind == "arg_class_removed_2":
+        return (mod, "ok2", '{"a": %s, "b": %s}' % (cls_json(mod, "GoneClass"), t), t, None)
     if kind == "nowraps":
         return (mod, "unwrapped", '{"a": %s}' % t, t, None)
     raise ValueError(kind)
@@ -126,7 +132,7 @@ def row_for(kind, mod, n=0):
 DECODABLE = {"valid", "valid2", "valid_method", "renamed_param", "nowraps"}
 KINDS = ["valid", "valid2", "valid_method", "renamed_param", "function_removed", "arg_class_removed", "return_class_removed",
          "yield_class_removed", "class_module_removed", "local_scope", "now_nonfunction", "now_class", "now_settable_property",
-         "class_now_nontype"]
+         "class_now_nontype", "class_now_nontype_ret", "class_module_removed_ret", "arg_class_removed_2"]
 
 _W = {}
 
